@@ -678,6 +678,20 @@ Proof.
   cbn [Cst.wf_ws forallb] in H. apply andb_true_iff in H. apply ws_not_name_byte. apply H.
 Qed.
 
+Lemma attr_value_facts quote value :
+  forallb (fun x => Cst.is_plain x && negb (x =? 60) && negb (x =? 38) && negb (x =? quote)
+                    && negb (x =? 9) && negb (x =? 10)) value = true ->
+  forallb (fun y => negb ((y =? quote) || (y =? 60))) value = true /\
+  forallb (fun x => x <? 128) value = true /\ forallb byte_is_char value = true.
+Proof.
+  intros Hv. split; [|split].
+  - eapply forallb_imp; [|exact Hv]. intros x Hx. cbv beta in Hx. lia.
+  - eapply forallb_imp; [|exact Hv]. intros x Hx. cbv beta in Hx.
+    assert (Hp : Cst.is_plain x = true) by lia. destruct (plain_char _ Hp). lia.
+  - eapply forallb_imp; [|exact Hv]. intros x Hx. cbv beta in Hx.
+    apply plain_byte_char; lia.
+Qed.
+
 Lemma lex_attr_iter fuel ts q a more c : W q (Cst.r_attr a ++ more) -> Cst.wf_attr a = true ->
   parse_element_loop text C ev (S fuel) ts (st q (Cst.r_attr a ++ more)) c =
   let! c' := ev (attr_tok q a) c in
@@ -685,71 +699,62 @@ Lemma lex_attr_iter fuel ts q a more c : W q (Cst.r_attr a ++ more) -> Cst.wf_at
 Proof.
   intros HW Hwf. destruct (wf_attr_parts _ Hwf) as (Hne & Hws & Hn & Hw1 & Hw2 & Hq & Hv).
   unfold attr_tok. cbv zeta.
-  assert (Elen : blen (Cst.r_attr a) = blen (Cst.a_ws a) + blen (Cst.a_name a) + blen (Cst.a_ws1 a) + 1
+  assert (Elen : q + blen (Cst.r_attr a) = q + blen (Cst.a_ws a) + blen (Cst.a_name a) + blen (Cst.a_ws1 a) + 1
                   + blen (Cst.a_ws2 a) + 1 + blen (Cst.a_value a) + 1).
-  { unfold Cst.r_attr. rewrite !blen_app, !blen_cons, blen_nil. lia. }
+  { clear. unfold Cst.r_attr. rewrite !blen_app, !blen_cons, blen_nil. lia. }
   rewrite Elen. clear Elen.
   unfold Cst.r_attr in *. rewrite <- !app_assoc in *. cbn [app] in *.
   destruct a as [ws name ws1 ws2 quote value]. cbn [Cst.a_ws Cst.a_name Cst.a_ws1 Cst.a_ws2 Cst.a_quote Cst.a_value] in *.
+  destruct (attr_value_facts _ _ Hv) as (Hv1 & Hv2 & Hv3). clear Hv Hwf.
+  assert (Hqq : (quote =? 39) || (quote =? 34) = true) by (clear - Hq; lia).
+  assert (Hqsp : byte_is_space quote = false) by (clear - Hq; destruct Hq as [-> | ->]; reflexivity).
+  clear Hq.
   destruct ws as [|w ws]; [congruence|]. clear Hne.
   destruct name as [|n name]; [discriminate|].
   assert (Hn0 : Cst.is_name_start n = true).
   { cbn [Cst.wf_name] in Hn. apply andb_true_iff in Hn. apply Hn. }
   destruct (name_start_byte _ Hn0) as (_ & _ & Hnsp & Hn47 & Hn62 & _).
-  cbn [parse_element_loop]. rewrite at_end_st by exact HW. cbn [app].
-  unfold starts_with_space. change ((w :: ws) ++ ?l) with (w :: ws ++ l) in *.
-  rewrite curr_byte_opt_st by exact HW.
+  apply N.eqb_neq in Hn47, Hn62. clear Hn0.
   assert (Hwsp : byte_is_space w = true).
   { cbn [Cst.wf_ws forallb] in Hws. apply andb_true_iff in Hws. apply ws_space. apply Hws. }
+  cbn [parse_element_loop]. rewrite at_end_st by exact HW. cbn [app].
+  unfold starts_with_space. rewrite curr_byte_opt_st by exact HW.
   rewrite Hwsp. cbv zeta.
-  change (w :: ws ++ ?l) with ((w :: ws) ++ l) in *.
+  change (w :: ws ++ ?l) with ((w :: ws) ++ l) in HW |- *.
   rewrite skip_spaces_st; [|exact HW|apply ws_spaces; exact Hws|cbn [app stops]; exact Hnsp].
   pose proof (W_app _ _ _ HW) as HW1. cbn [st s_pos].
-  set (start := q + blen (w :: ws)) in *.
-  change ((n :: name) ++ ?l) with (n :: name ++ l) in *.
-  fold (st start (n :: name ++ ws1 ++ 61 :: ws2 ++ quote :: value ++ quote :: more)).
+  match goal with |- context [ {| s_pos := ?a; s_end := tlen text; s_rest := ?r |} ] => fold (st a r) end.
+  cbn [app] in HW1 |- *.
   rewrite curr_byte_st by exact HW1. cbn [bind].
-  replace (n =? 47) with false by lia. replace (n =? 62) with false by lia.
-  change (n :: name ++ ?l) with ((n :: name) ++ l) in *.
+  rewrite Hn47, Hn62.
+  change (n :: name ++ ?l) with ((n :: name) ++ l) in HW1 |- *.
   rewrite consume_qname_st; [|exact HW1|exact Hn|].
   2:{ apply ws_stop_name; [exact Hw1|]. cbn [name_stop]. apply not_name_byte_lit. auto. }
-  cbn [bind]. pose proof (W_app _ _ _ HW1) as HW2. set (ne := start + blen (n :: name)) in *.
+  cbn [bind]. pose proof (W_app _ _ _ HW1) as HW2.
   unfold consume_eq.
   rewrite skip_spaces_st; [|exact HW2|apply ws_spaces; exact Hw1|reflexivity].
   pose proof (W_app _ _ _ HW2) as HW3.
   rewrite consume_byte_st by exact HW3. cbn [bind].
   pose proof (W_cons _ _ _ HW3) as HW4.
-  rewrite skip_spaces_st; [|exact HW4|apply ws_spaces; exact Hw2|].
-  2:{ cbn [stops]. destruct Hq as [-> | ->]; reflexivity. }
+  rewrite skip_spaces_st; [|exact HW4|apply ws_spaces; exact Hw2|cbn [stops]; exact Hqsp].
   pose proof (W_app _ _ _ HW4) as HW5. cbn [st s_pos].
-  set (eqe := ne + blen ws1 + 1 + blen ws2) in *.
-  fold (st eqe (quote :: value ++ quote :: more)).
+  match goal with |- context [ {| s_pos := ?a; s_end := tlen text; s_rest := ?r |} ] => fold (st a r) end.
   unfold consume_quote. rewrite curr_byte_st by exact HW5. cbn [bind].
-  replace ((quote =? 39) || (quote =? 34)) with true by lia.
+  rewrite Hqq.
   rewrite advance1_st by exact HW5. cbn [bind].
   pose proof (W_cons _ _ _ HW5) as HW6. cbn [st s_pos].
-  fold (st (eqe + 1) (value ++ quote :: more)).
+  match goal with |- context [ {| s_pos := ?a; s_end := tlen text; s_rest := ?r |} ] => fold (st a r) end.
   unfold advance_until2. rewrite avail_st by exact HW6.
-  rewrite find_idx_run.
-  2:{ eapply forallb_imp; [|exact Hv]. intros x Hx. cbv beta in Hx. lia. }
-  2:{ rewrite N.eqb_refl. reflexivity. }
+  rewrite find_idx_run; [|exact Hv1|rewrite N.eqb_refl; reflexivity].
   rewrite advance_st by (try reflexivity; exact HW6). cbn [bind].
   pose proof (W_app _ _ _ HW6) as HW7. unfold slice_back. cbn [st s_pos].
-  rewrite mk_slice_ok by (pose proof (W_le _ _ HW7); lia). cbn [bind].
+  pose proof (W_le _ _ HW7) as Hle7.
+  rewrite mk_slice_ok by (clear - Hle7; lia). cbn [bind].
   unfold is_xml_str. rewrite (W_slice _ _ _ HW6).
-  assert (Ha : forallb (fun x => x <? 128) value = true).
-  { eapply forallb_imp; [|exact Hv]. intros x Hx. cbv beta in Hx.
-    assert (Hp : Cst.is_plain x = true) by lia. destruct (plain_char _ Hp). lia. }
-  rewrite Ha. rewrite is_xml_str_ascii_ok.
-  2:{ eapply forallb_imp; [|exact Hv]. intros x Hx. cbv beta in Hx.
-      apply plain_byte_char; lia. }
-  cbn [bind]. fold (st (eqe + 1 + blen value) (quote :: more)).
+  rewrite Hv2. rewrite is_xml_str_ascii_ok by exact Hv3.
+  cbn [bind].
+  match goal with |- context [ {| s_pos := ?a; s_end := tlen text; s_rest := ?r |} ] => fold (st a r) end.
   rewrite consume_byte_st by exact HW7. cbn [bind]. cbn [st s_pos].
-  replace (q + (blen (w :: ws) + blen (n :: name) + blen ws1 + 1 + blen ws2 + 1 + blen value + 1))
-    with (eqe + 1 + blen value + 1) by (unfold eqe, ne, start; lia).
-  replace (q + blen (w :: ws) + blen (n :: name) + blen ws1 + 1 + blen ws2) with eqe by (unfold eqe, ne, start; lia).
-  replace (q + blen (w :: ws) + blen (n :: name)) with ne by (unfold ne, start; lia).
-  replace (q + blen (w :: ws)) with start by reflexivity.
   reflexivity.
 Qed.
 
@@ -764,8 +769,8 @@ Lemma lex_elem_end fuel ts q ws_end empty post c :
   Ok (negb empty, st (q + blen ws_end + blen (tag_tail empty)) post, c').
 Proof.
   intros HW Hws. cbn [parse_element_loop]. rewrite at_end_st by exact HW.
-  assert (Hne : ws_end ++ tag_tail empty ++ post <> []) by (destruct ws_end, empty; discriminate).
-  destruct (ws_end ++ tag_tail empty ++ post) eqn:E0; [congruence|]. rewrite <- E0. clear E0 Hne. cbv zeta.
+  replace (match ws_end ++ tag_tail empty ++ post with [] => true | _ => false end) with false
+    by (destruct ws_end, empty; reflexivity). cbv zeta.
   rewrite skip_spaces_st; [|exact HW|apply ws_spaces; exact Hws|destruct empty; reflexivity].
   pose proof (W_app _ _ _ HW) as HW1. unfold end_tok. destruct empty; cbn [tag_tail app negb] in *.
   - rewrite curr_byte_st by exact HW1. cbn [bind]. change (47 =? 47) with true. cbv iota.
